@@ -74,6 +74,8 @@ def ident(name):
 RAT, NAT, INT, BOOL, STR, NONE = ("rat",), ("nat",), ("int",), ("bool",), ("str",), ("none",)
 IV, VEC, COL, MASK, IDX2, IDX, STRLIST = ("iv",), ("vec",), ("col",), ("mask",), ("idx2",), ("idx",), ("strlist",)
 NATLIST = ("natlist",)
+OPTSTRLIST = ("optstrlist",)      # a list whose items are labels or None (the fill value)
+FIDX = ("fidx",)                  # a float array holding exact natural numbers (`np.arange(n, dtype=np.float32)`)
 BOT = ("bot",)                    # the empty display `[]` / `{}` before its first use
 
 
@@ -112,13 +114,20 @@ PARAMS = {
                          "start_label": (STR, r"^str or float or int$"), "end_label": (STR, r"^str or float or int$")},
     "merge_labeled_intervals": {"x_intervals": (IV, r"^np\.ndarray$"), "x_labels": (STRLIST, r"^list or none$"),
                                 "y_intervals": (IV, r"^np\.ndarray$"), "y_labels": (STRLIST, r"^list or none$")},
+    "interpolate_intervals": {"intervals": (IV, r"^np\.ndarray, shape=\(n, 2\)$"), "labels": (STRLIST, r"^list, shape=\(n,\)$"),
+                              "time_points": (VEC, r"^array_like, shape=\(m,\)$"),
+                              "fill_value": (OPT(STR), r"^type\(labels\[0\]\)$")},
+    "intervals_to_samples": {"intervals": (IV, r"^np\.ndarray, shape=\(n, d\)$"), "labels": (STRLIST, r"^list, shape=\(n,\)$"),
+                             "offset": (RAT, r"^float > 0$"), "sample_size": (RAT, r"^float > 0$"),
+                             "fill_value": (OPT(STR), r"^type\(labels\[0\]\)$")},
     "index_labels": {"labels": (STRLIST, r"^list of strings, shape=\(n,\)$"), "case_sensitive": (BOOL, r"^bool$")},
     "generate_labels": {"items": (VEC, r"^list-like$"), "prefix": (STR, r"^str$")},
 }
 
 # functions of mir_eval/util.py, in emission order; REQUIRED: one that leaves the subset is a translator problem
 WANTED = ["validate_intervals", "intervals_to_durations", "intervals_to_boundaries", "boundaries_to_intervals",
-          "sort_labeled_intervals", "adjust_events", "adjust_intervals"]
+          "sort_labeled_intervals", "adjust_events", "adjust_intervals", "interpolate_intervals", "intervals_to_samples",
+          "merge_labeled_intervals", "index_labels", "generate_labels"]
 
 EXC = {"ValueError": "valueError", "IndexError": "indexError", "TypeError": "typeError", "KeyError": "keyError",
        "ZeroDivisionError": "zeroDivision"}
@@ -128,7 +137,8 @@ def lean_type(t):
     k = t[0]
     simple = {"rat": "Rat", "nat": "Nat", "int": "Int", "bool": "Bool", "str": "String", "none": "Unit",
               "iv": "(List (Rat × Rat))", "vec": "(List Rat)", "col": "(List Rat)", "mask": "(List Bool)",
-              "idx2": "(List Nat)", "idx": "(List Nat)", "natlist": "(List Nat)", "strlist": "(List String)"}
+              "idx2": "(List Nat)", "idx": "(List Nat)", "natlist": "(List Nat)", "strlist": "(List String)",
+              "optstrlist": "(List (Option String))", "fidx": "(List Nat)"}
     if k in simple:
         return simple[k]
     if k == "opt":
@@ -163,6 +173,10 @@ def join(a, b, node=None):
         return a
     if a in NUMERIC and b in NUMERIC:
         return NUMERIC[max(NUMERIC.index(a), NUMERIC.index(b))]
+    if BOT in (a, b):
+        return b if a == BOT else a
+    if {a, b} == {STRLIST, OPTSTRLIST}:
+        return OPTSTRLIST
     if a == NONE and b[0] == "opt":
         return b
     if b == NONE and a[0] == "opt":
@@ -232,7 +246,9 @@ def coerce(e, to, node=None):
             return "(%s, (none : Option %s))" % (e.term, lean_type(to[2]))
         if e.ty[0] == "tup" and len(e.ty[1]) == 2 and e.elts is not None:
             return "(%s, %s)" % (coerce(e.elts[0], to[1], node), coerce(e.elts[1], OPT(to[2]), node))
-    if e.ty == BOT and to[0] in ("strlist", "natlist", "vec", "dict", "iv"):
+    if e.ty == STRLIST and to == OPTSTRLIST:
+        return "(List.map some %s)" % e.term
+    if e.ty == BOT and to[0] in ("strlist", "natlist", "vec", "dict", "iv", "optstrlist"):
         return "([] : %s)" % lean_type(to)
     raise Unsupported("cannot convert %s to %s" % (show_type(e.ty), show_type(to)), node)
 
@@ -560,8 +576,32 @@ class FnTr:
                     lines.append("let %s : %s := %s" % (ident(n), lean_type(x.ty), x.term))
             return self.bind_lines(binds) + lines + cont(env2)
         if isinstance(target, ast.Subscript) and isinstance(target.value, ast.Name) and target.value.id in env:
+            if isinstance(target.slice, ast.Slice):
+                return self.slice_store(target, value, env, cont, node)
             return self.dict_store(target, value, env, cont, node)
         raise Unsupported("assignment target %s" % type(target).__name__, node)
+
+    def slice_store(self, target, value, env, cont, node):
+        """`x[a:b] = <list>` on a list this function owns (Python's clipping; the length may change)"""
+        name = target.value.id
+        v = env[name]
+        sl = target.slice
+        if v.ty not in (STRLIST, OPTSTRLIST, NATLIST):
+            raise Unsupported("slice assignment on a %s" % show_type(v.ty), node)
+        if not v.owned:
+            raise Unsupported("slice assignment on %s, which may be the caller's list" % name, node)
+        if sl.step is not None or sl.lower is None or sl.upper is None:
+            raise Unsupported("slice assignment without both bounds / with a step", node)
+        binds = []
+        a = self.expr(sl.lower, env, binds)
+        b = self.expr(sl.upper, env, binds)
+        if a.ty != NAT or b.ty != NAT:
+            raise Unsupported("slice assignment bounds of type %s, %s" % (show_type(a.ty), show_type(b.ty)), node)
+        r = self.expr(value, env, binds)
+        env2 = dict(env)
+        env2[name] = Var(v.ty, ident(name), owned=True)
+        return self.bind_lines(binds) + ["let %s : %s := %s.sliceAssign %s %s %s %s" % (
+            ident(name), lean_type(v.ty), PI, v.term, a.term, b.term, coerce(r, v.ty, node))] + cont(env2)
 
     def dict_store(self, target, value, env, cont, node):
         name = target.value.id
@@ -738,8 +778,131 @@ class FnTr:
         return out + inner
 
     # -- for ------------------------------------------------------------------------------
+    def iterable(self, it, env, binds, node):
+        """-> (Lean term of the iterated list, [element types])"""
+        if isinstance(it, ast.Call) and isinstance(it.func, ast.Name) and it.func.id not in env and not it.keywords:
+            elt = {STRLIST: STR, IDX: NAT, NATLIST: NAT, VEC: RAT, OPTSTRLIST: OPT(STR), FIDX: NAT}
+            if it.func.id == "zip" and len(it.args) in (2, 3):
+                es = [self.expr(a, env, binds) for a in it.args]
+                if all(e.ty in elt for e in es):
+                    term = es[-1].term
+                    for e in reversed(es[:-1]):
+                        term = "(List.zip %s %s)" % (e.term, term)
+                    return term, [elt[e.ty] for e in es]
+                raise Unsupported("zip of %s" % ", ".join(show_type(e.ty) for e in es), node)
+            if it.func.id == "enumerate" and len(it.args) == 1:
+                e = self.expr(it.args[0], env, binds)
+                if e.ty in elt:
+                    return "(%s.enumerate %s)" % (PI, e.term), [NAT, elt[e.ty]]
+                raise Unsupported("enumerate of a %s" % show_type(e.ty), node)
+            if it.func.id == "range" and len(it.args) == 1:
+                e = self.expr(it.args[0], env, binds)
+                if e.ty == NAT:
+                    return "(List.range %s)" % e.term, [NAT]
+                raise Unsupported("range of a %s" % show_type(e.ty), node)
+        e = self.expr(it, env, binds)
+        if e.ty == IV:
+            return e.term, [RAT, RAT]
+        one = {STRLIST: STR, IDX: NAT, NATLIST: NAT, VEC: RAT}
+        if e.ty in one:
+            return e.term, [one[e.ty]]
+        raise Unsupported("iteration over a %s" % show_type(e.ty), node)
+
     def for_stmt(self, s, env, cont):
-        raise Unsupported("for loop", s)
+        """a `for` over a list is a structurally recursive auxiliary definition `<f>_loop<k>` over the iterated list
+        that carries the locals the body (re)assigns (the loop state); no `return` / `break` / `continue` / `else`"""
+        if s.orelse:
+            raise Unsupported("for ... else", s)
+        if has_return(s.body):
+            raise Unsupported("`return` inside a for loop", s)
+        binds = []
+        src, elts = self.iterable(s.iter, env, binds, s)
+        tg = s.target
+        if isinstance(tg, ast.Name) and len(elts) == 1:
+            tnames = [tg.id]
+        elif isinstance(tg, (ast.Tuple, ast.List)) and all(isinstance(x, ast.Name) for x in tg.elts) \
+                and len(tg.elts) == len(elts):
+            tnames = [x.id for x in tg.elts]
+        else:
+            raise Unsupported("loop target that does not match the %d-tuples iterated over" % len(elts), s)
+        real = [n for n in tnames if n != "_"]
+        if len(set(real)) != len(real):
+            raise Unsupported("repeated loop target", s)
+
+        def body_env(base):
+            e = dict(base)
+            for n, t in zip(tnames, elts):
+                if n != "_":
+                    e[n] = Var(t, ident(n))
+            return e
+        # pass 1: which locals of the enclosing scope does the body rebind, and with which types
+        finals = []
+        save = (self.tmp, dict(self.aux))
+        self.stmts(s.body, body_env(env), lambda e: (finals.append(e), ["pure ?"])[1])
+        self.tmp, self.aux = save
+        if len(finals) != 1:
+            raise Unsupported("a loop body that does not fall through exactly once", s)
+        state = []
+        for n, v in finals[0].items():
+            if n in env and n not in real and env[n].vid != v.vid:
+                t = join(env[n].ty, v.ty, s)
+                if t == BOT:
+                    raise Unsupported("loop state %s of unknown type" % n, s)
+                state.append((n, t))
+        order = assigned_names(s.body) + [n for n, _ in state]
+        state.sort(key=lambda x: order.index(x[0]))
+        if not state:
+            raise Unsupported("a loop without state", s)
+        for n, t in state:
+            if n in real:
+                raise Unsupported("loop target %s is also loop state" % n, s)
+        # pass 2: the body with the state at its loop type
+        env_in = dict(env)
+        for n, t in state:
+            env_in[n] = Var(t, ident(n), owned=env[n].owned)
+        loops = sorted((nd for nd in ast.walk(self.fn) if isinstance(nd, ast.For)), key=lambda nd: (nd.lineno, nd.col_offset))
+        lname = "%s_loop%d" % (self.fn.name, 1 + [i for i, x in enumerate(loops) if x is s][0])
+        reads = sorted((nd for nd in ast.walk(ast.Module(body=s.body, type_ignores=[]))
+                        if isinstance(nd, ast.Name) and nd.id in env and nd.id not in real
+                        and nd.id not in [n for n, _ in state]), key=lambda nd: (nd.lineno, nd.col_offset))
+        frees = []
+        for nd in reads:
+            if nd.id not in frees:
+                frees.append(nd.id)
+        if any(env[n].term != ident(n) for n in frees):
+            raise Unsupported("a loop body reading a narrowed local", s)
+        sty = TUP([t for _, t in state]) if len(state) > 1 else state[0][1]
+
+        def k_loop(e):
+            vals = []
+            for n, t in state:
+                if n not in e:
+                    raise Unsupported("loop state %s is unbound at the end of the body" % n, s)
+                vals.append(coerce(E(e[n].term, e[n].ty), t, s))
+            return ["%s %s" % (ident(lname), " ".join([ident(n) for n in frees] + ["rest__"] + vals))]
+        body_lines = self.stmts(s.body, body_env(env_in), k_loop)
+        pat = "(%s)" % ", ".join("_" if n == "_" else ident(n) for n in tnames) if len(tnames) > 1 else \
+            ("_" if tnames[0] == "_" else ident(tnames[0]))
+        elt_ty = " × ".join(lean_type(t) for t in elts)
+        plist = " ".join("(%s : %s)" % (ident(n), lean_type(env[n].ty)) for n in frees)
+        snames = [ident(n) for n, _ in state]
+        aux = ["/-- lines %d-%d of `util.%s`: the loop `%s` as a recursion over the iterated list carrying (%s) -/" % (
+            s.lineno, s.end_lineno, self.fn.name, ast.unparse(s).split("\n")[0][:80], ", ".join(n for n, _ in state)),
+            "def %s %s : List (%s) → %s → Py %s" % (ident(lname), plist, elt_ty,
+                                                   " → ".join(lean_type(t) for _, t in state), lean_type(sty)),
+            "  | [], %s => pure %s" % (", ".join(snames), "(%s)" % ", ".join(snames) if len(snames) > 1 else snames[0]),
+            "  | %s :: rest__, %s => do" % (pat, ", ".join(snames))] + indent(body_lines, 4)
+        self.aux[lname] = aux
+        init = [coerce(E(env[n].term, env[n].ty), t, s) for n, t in state]
+        env2 = dict(env)
+        for n in list(env2):
+            if n in finals[0] and finals[0][n].vid != env[n].vid and n not in [x for x, _ in state]:
+                env2.pop(n)
+        for n, t in state:
+            env2[n] = Var(t, ident(n), owned=env[n].owned)
+        head = "let %s : %s ← " % ("(%s)" % ", ".join(snames) if len(snames) > 1 else snames[0], lean_type(sty))
+        call = "%s %s" % (ident(lname), " ".join([ident(n) for n in frees] + [src] + init))
+        return self.bind_lines(binds) + [head + call] + cont(env2)
 
     # -- conditions -----------------------------------------------------------------------
     def cond(self, node, env, binds):
@@ -824,6 +987,8 @@ class FnTr:
             return E("[%s]" % ", ".join(coerce(x, RAT, node) for x in elts), VEC, elts=elts, fresh=True)
         if t == STR:
             return E("[%s]" % ", ".join(x.term for x in elts), STRLIST, elts=elts, fresh=True)
+        if t == OPT(STR):
+            return E("[%s]" % ", ".join(coerce(x, t, node) for x in elts), OPTSTRLIST, elts=elts, fresh=True)
         if t == BOOL:
             return E("[%s]" % ", ".join(x.term for x in elts), MASK, elts=elts, fresh=True)
         if t == VEC:
@@ -877,6 +1042,19 @@ class FnTr:
             return E("(%s)" % " ++ ".join(ps), STR)
         a = self.expr(node.left, env, binds)
         b = self.expr(node.right, env, binds)
+        if isinstance(node.op, ast.Mult) and isinstance(node.left, ast.List) and len(node.left.elts) == 1 \
+                and a.elts is not None and b.ty in (NAT, INT):
+            x = a.elts[0]
+            lt = {STR: STRLIST, NAT: NATLIST, OPT(STR): OPTSTRLIST}.get(x.ty)
+            if lt is None:
+                raise Unsupported("[%s] * n" % show_type(x.ty), node)
+            cnt = b.term if b.ty == NAT else "(Int.toNat %s)" % b.term          # a negative count gives the empty list
+            return E("(List.replicate %s %s)" % (cnt, x.term), lt, fresh=True)
+        if a.ty == FIDX and b.ty in NUMERIC and isinstance(node.op, ast.Mult):
+            return E("(List.map (fun _i => ((_i : Nat) : Rat) * %s) %s)" % (coerce(b, RAT, node), a.term), VEC, fresh=True)
+        if a.ty == VEC and b.ty in NUMERIC and isinstance(node.op, (ast.Add, ast.Sub, ast.Mult)):
+            sym = {ast.Add: "+", ast.Sub: "-", ast.Mult: "*"}[type(node.op)]
+            return E("(List.map (fun _v => _v %s %s) %s)" % (sym, coerce(b, RAT, node), a.term), VEC, fresh=True)
         if a.ty in NUMERIC and b.ty in NUMERIC and isinstance(node.op, (ast.Add, ast.Sub, ast.Mult)):
             t = join(a.ty, b.ty, node)
             if isinstance(node.op, ast.Sub) and t == NAT:
@@ -1038,6 +1216,8 @@ class FnTr:
                 return E(t, RAT)
             if m == "any" and nargs == 0 and v.ty == MASK:
                 return E("(%s.anyB %s)" % (PI, v.term), BOOL)
+            if m == "tolist" and nargs == 0 and v.ty == VEC:
+                return E(v.term, VEC, fresh=True)
             if m == "flatten" and nargs == 0 and v.ty in (COL, VEC):
                 return E(v.term, VEC, fresh=True)
             if m == "lower" and nargs == 0 and v.ty == STR:
@@ -1050,6 +1230,19 @@ class FnTr:
             if v.ty in (IV, VEC, STRLIST, NATLIST, IDX2, IDX, MASK):
                 return E("(%s.len %s)" % (PI, v.term), NAT)
             raise Unsupported("len of a %s" % show_type(v.ty), node)
+        if name == "int" and nargs == 1 and not node.keywords:
+            fl = node.args[0]
+            if isinstance(fl, ast.Call) and dotted(fl.func) == "np.floor" and len(fl.args) == 1 and not fl.keywords \
+                    and isinstance(fl.args[0], ast.BinOp) and isinstance(fl.args[0].op, ast.Div):
+                num, den = fl.args[0].left, fl.args[0].right
+                if not (isinstance(num, ast.Call) and isinstance(num.func, ast.Attribute) and num.func.attr in ("max", "min")):
+                    raise Unsupported("int(np.floor(a / b)) where a is not a NumPy scalar (`x.max()` / `x.min()`): a Python "
+                                      "float division raises ZeroDivisionError instead", node)
+                a, b = self.expr(num, env, binds), self.expr(den, env, binds)
+                if a.ty == RAT and b.ty in NUMERIC:
+                    t = self.bind(binds, "%s.intFloorDivNp %s %s" % (PI, a.term, coerce(b, RAT, node)), INT, node)
+                    return E(t, INT)
+            raise Unsupported("int() of anything but np.floor(<NumPy scalar> / <number>)", node)
         if name == "list" and nargs == 1 and not node.keywords:
             v = self.expr(node.args[0], env, binds)
             if v.ty in (STRLIST, NATLIST):
@@ -1196,10 +1389,24 @@ class FnTr:
             v = A(0)
             if v.ty == MASK:
                 return E("(%s.anyB %s)" % (PI, v.term), BOOL)
-        if fn == "arange" and nargs == 1 and not node.keywords:
+        if fn == "arange" and nargs == 1:
+            kw = self.kwargs(node, ("dtype",))
             v = A(0)
+            if "dtype" in kw:
+                if dotted(kw["dtype"]) not in ("np.float32", "np.float64") or v.ty not in (NAT, INT):
+                    raise Unsupported("np.arange with this dtype / bound", node)
+                return E("(%s.arangeInt %s)" % (PI, coerce(v, INT, node)), FIDX, fresh=True)
             if v.ty == NAT:
                 return E("(%s.arange %s)" % (PI, v.term), IDX, fresh=True)
+        if fn == "searchsorted" and nargs == 2:
+            kw = self.kwargs(node, ("side",))
+            side = kw.get("side")
+            if side is not None and not (isinstance(side, ast.Constant) and side.value in ("left", "right")):
+                raise Unsupported("np.searchsorted with a computed side", node)
+            a, b = A(0), A(1)
+            if a.ty == VEC and b.ty == VEC:
+                prim = "searchsortedRight" if side is not None and side.value == "right" else "searchsortedLeft"
+                return E("(%s.%s %s %s)" % (PI, prim, a.term, b.term), IDX, fresh=True)
         raise Unsupported("np.%s on these arguments" % fn, node)
 
     def listcomp(self, node, env, binds):
@@ -1245,6 +1452,8 @@ def val_decoder(ty, v):
         return "let %s ← %s %s" % (v, simple[ty], v)
     if ty == OPT(STRLIST):
         return "let %s ← (match %s with | Val.none => some none | _v => (Val.asStrs? _v).map some)" % (v, v)
+    if ty == OPT(STR):
+        return "let %s ← (match %s with | Val.none => some none | _v => (Val.asStr? _v).map some)" % (v, v)
     raise Unsupported("no protocol decoder for %s" % show_type(ty))
 
 
@@ -1255,6 +1464,8 @@ def val_encoder(ty):
               "strlist": "Val.ofStrs", "natlist": "Val.ofNats", "idx": "Val.ofNats"}
     if k in simple:
         return simple[k]
+    if k == "optstrlist":
+        return "(fun _l => Val.list (List.map (fun _o => match _o with | some _s => Val.str _s | none => Val.none) _l))"
     if k == "opt":
         return "(fun _o => match _o with | some _v => %s _v | none => Val.none)" % val_encoder(ty[1])
     if k == "tup":
